@@ -1,6 +1,42 @@
 HOOK_COMMITS = ["91ffc11"]
 NOT_APPLICABLE = {}
 ENTRIES = {
+    "C02": {
+        "text": 'Step-level theorems for every pool state: a non-shareable connection is delivered to at most one waiter and never both delivered and kept idle; the hand-back task returns it only when open and not busy; pop never returns a busy/closed connection; use marks it busy. Monitors (double-use, busy-handout) run on every implementation trace; model and implementation are compared after every op.',
+        "note": 'Trusted: Lean kernel; hand-written pool model tied to the real ConnectionPoolService by per-op differential runs (result, marker set, waiter queues, idle lists, dial and drop counters); tokio oneshot/scheduler semantics assumed; step-level theorems hold for every state, the global ownership invariant is stated in DESIGN.md as future work where not yet proved.',
+        "design_ref": "DESIGN.md §4",
+    },
+    "C03": {
+        "text": "Step-level theorems for every state: the marker's owner going away releases every queued waiter (sender dropped = wake-up), a released pure waiter resolves with an error, a released dialer carries on, a checkout whose attempts have terminated never polls Pending. Trace monitors: lost wake-up, stranded waiter (marker gone), resolved dial not consumed, drain + probe phase. Two stranding defects found and fixed.",
+        "note": 'Trusted: Lean kernel; hand-written pool model tied to the real ConnectionPoolService by per-op differential runs (result, marker set, waiter queues, idle lists, dial and drop counters); tokio oneshot/scheduler semantics assumed; step-level theorems hold for every state, the global ownership invariant is stated in DESIGN.md as future work where not yet proved.',
+        "design_ref": "DESIGN.md §4",
+    },
+    "C04": {
+        "text": 'Step-level theorems: a request issued while an open idle connection exists is equipped with it and dials nothing; a shareable connection stays pooled while checked out; with the marker set a new request becomes a pure waiter that never dials and owns no marker. Trace monitors compare dial and drop counters with the model (extra dial, destroyed connection, shared connection unavailable). Three defects found and fixed.',
+        "note": 'Trusted: Lean kernel; hand-written pool model tied to the real ConnectionPoolService by per-op differential runs (result, marker set, waiter queues, idle lists, dial and drop counters); tokio oneshot/scheduler semantics assumed; step-level theorems hold for every state, the global ownership invariant is stated in DESIGN.md as future work where not yet proved.',
+        "design_ref": "DESIGN.md §4",
+    },
+    "C05": {
+        "text": 'Theorems for every idle list, clock and timeout: pop returns only an open, ready, unexpired connection, clears the list at the first expired entry, keeps order; none/zero timeout never expires; issue equips a checkout only with such a connection. Trace monitor for closed hand-outs; timed cases use the real clock.',
+        "note": 'Trusted: Lean kernel; hand-written pool model tied to the real ConnectionPoolService by per-op differential runs (result, marker set, waiter queues, idle lists, dial and drop counters); tokio oneshot/scheduler semantics assumed; step-level theorems hold for every state, the global ownership invariant is stated in DESIGN.md as future work where not yet proved.',
+        "design_ref": "DESIGN.md §4",
+    },
+    "C06": {
+        "text": "Theorems: the token table stays well formed (non-zero, injective) under insert for every key sequence; distinct origins get distinct tokens; a new connection carries its checkout's origin. Every pool structure is indexed by token; the trace monitor checks on every delivery that the connection was dialled for the request's own scheme+authority (origins differing in scheme, port, host and letter case).",
+        "note": 'Trusted: Lean kernel; hand-written pool model tied to the real ConnectionPoolService by per-op differential runs (result, marker set, waiter queues, idle lists, dial and drop counters); tokio oneshot/scheduler semantics assumed; step-level theorems hold for every state, the global ownership invariant is stated in DESIGN.md as future work where not yet proved. Token counter wrap-around at usize::MAX is out of the model.',
+        "design_ref": "DESIGN.md §4",
+    },
+    "C14": {
+        "text": 'Step-level theorems for every state: push delivers to the first live waiter; a checkout whose channel holds a connection takes it at its next poll whatever its dial is doing; a not-ready dialing checkout keeps listening; with continue_after_preemption the abandoned dial carries on in a background task, without it the channel is closed and the marker cleared. Defect (receiver dropped at first poll) found and fixed.',
+        "note": 'Trusted: Lean kernel; hand-written pool model tied to the real ConnectionPoolService by per-op differential runs (result, marker set, waiter queues, idle lists, dial and drop counters); tokio oneshot/scheduler semantics assumed; step-level theorems hold for every state, the global ownership invariant is stated in DESIGN.md as future work where not yet proved.',
+        "design_ref": "DESIGN.md §4",
+    },
+    "C15": {
+        "text": 'Invariant theorem: for every configuration, every operation sequence of any length and every origin, the idle list never exceeds max_idle_per_host, at every point of the history (proved through all 10 ops and every pool primitive). Implementation snapshots are checked against the limit after every op. Defect (limit never enforced) found and fixed.',
+        "note": 'Trusted: Lean kernel; hand-written pool model tied to the real ConnectionPoolService by per-op differential runs (result, marker set, waiter queues, idle lists, dial and drop counters); tokio oneshot/scheduler semantics assumed; step-level theorems hold for every state, the global ownership invariant is stated in DESIGN.md as future work where not yet proved.',
+        "design_ref": "DESIGN.md §4",
+    },
+
     "C18": {
         "text": "Theorems for every adapter stack, inner read/write script and operation sequence: reads deliver, in order and "
                 "within the caller's capacity, exactly replay-prefix ++ inner stream (nothing lost, duplicated, invented); what "
